@@ -256,6 +256,32 @@ def cleanupPolicy (s : State) (lowerPct : Nat) (u : Usage) : State × Nat :=
   let minBytes := (u.total * lowerPct % two64) / 100
   (policyDelete s1 ((u.total : Int) - (minBytes : Int)) (sortPolicy infos), usage)
 
+/-- the `CleanupConfig` fields the periodic job uses -/
+structure JobCfg where
+  tti : Int
+  ttl : Int
+  aggrThr : Nat          -- AggressiveThreshold (percent; 0 = aggressive mode off)
+  aggrTTL : Int
+  lower : Nat            -- AggressiveLowerThreshold (percent)
+  deriving Repr, DecidableEq
+
+/-- `CleanupConfig.applyDefaults` (done by `addJob`): TTI 0 → 6 h; AggressiveTTL 0 → 1 h when aggressive
+cleanup is configured -/
+def JobCfg.applyDefaults (c : JobCfg) : JobCfg :=
+  { c with tti := if c.tti = 0 then 6 * 3600 * sec else c.tti,
+           aggrTTL := if c.aggrThr ≠ 0 ∧ c.aggrTTL = 0 then 3600 * sec else c.aggrTTL }
+
+/-- one run of the periodic job: `addJob`'s goroutine calls `cleanup(op, config.applyDefaults(),
+cachedInAgentPolicy)`, which reads the disk usage (`util` percent, `u`) and dispatches: the usage-driven
+policy pass when the disk is above the aggressive threshold and a lower threshold is configured, else a
+TTL pass with the aggressive TTL (above the threshold) or the normal TTL -/
+def jobCleanup (s : State) (c : JobCfg) (util : Nat) (u : Usage) : State × Nat :=
+  if (c.applyDefaults.aggrThr ≠ 0 ∧ util ≥ c.applyDefaults.aggrThr) ∧ c.applyDefaults.lower ≠ 0 then
+    cleanupPolicy s c.applyDefaults.lower u
+  else if c.applyDefaults.aggrThr ≠ 0 ∧ util ≥ c.applyDefaults.aggrThr then
+    cleanupTTL s c.applyDefaults.tti c.applyDefaults.aggrTTL c.applyDefaults.lower u
+  else cleanupTTL s c.applyDefaults.tti c.applyDefaults.ttl 0 u
+
 inductive Op where
   | create (n : Name) (size : Nat)
   | setMtime (n : Name) (t : Int)
@@ -268,6 +294,7 @@ inductive Op where
   | tick (dt : Nat)
   | cleanupTTL (tti ttl : Int) (lowerPct : Nat) (u : Usage)
   | cleanupPolicy (lowerPct : Nat) (u : Usage)
+  | job (interval : Nat) (c : JobCfg) (util : Nat) (u : Usage)   -- the ticker fires after `interval`
   deriving Repr, DecidableEq
 
 def step (s : State) : Op → State
@@ -282,6 +309,7 @@ def step (s : State) : Op → State
   | .tick dt => { s with now := s.now + dt }
   | .cleanupTTL tti ttl p u => (cleanupTTL s tti ttl p u).1
   | .cleanupPolicy p u => (cleanupPolicy s p u).1
+  | .job interval c util u => (jobCleanup { s with now := s.now + interval } c util u).1
 
 def init (cap : Nat) (now : Int) : State := { cap := cap, now := now }
 
